@@ -67,3 +67,51 @@ func zzH_c20_lru() {
 	}
 	vReach("end")
 }
+
+// H20-conn: one established connection used by two goroutines at once: every access to the
+// connection's shared state (record buffers, sequence numbers, sticky errors, close-notify
+// flags, the transport) happens under the half-connection lock that guards it or through
+// sync/atomic, for each pair of Write, Read, Close, CloseWrite and ConnectionState calls.
+//
+//verif:property C20
+//verif:expect-reach end
+//verif:bound established connection without record protection (null cipher: framing, buffers, sequence numbers, alerts are the real code); pairs of logical threads Write||Write, Write||Read, Write||Close, Read||Close, Read||Read, Write||ConnectionState, CloseWrite||Write; payloads of 2 symbolic bytes; one inbound application-data record of 2 symbolic bytes followed by end of stream; footprint + lock-set check (each thread runs to completion, every access is recorded with the locks held; two accesses of different threads to one cell, one a write, with no common lock and not both atomic = race)
+//verif:outside the activeCall interlock's interleavings (Close arriving while a Write is in flight), handshakes started concurrently, record protection (covered sequentially by C07), RWMutex readers are treated like writers' lock holders
+//verif:unwind 200
+func zzH_c20_conn() {
+	pay := vBytes("inbound", 2, 2)
+	in := []byte{byte(recordTypeApplicationData), 0x01, 0x01, 0, 2, pay[0], pay[1]}
+	w := &zzWire{in: in}
+	c := &Conn{conn: w, vers: VersionGMSSL, haveVers: true, handshakeStatus: 1, config: &Config{}}
+	c.in.version, c.out.version = VersionGMSSL, VersionGMSSL
+	a, b := vBytes("a", 2, 2), vBytes("b", 2, 2)
+	rb1, rb2 := make([]byte, 4), make([]byte, 4)
+	n := 1
+	if vNative() {
+		n = 400
+	}
+	rep := func(f func()) func() {
+		return func() {
+			for i := 0; i < n; i++ {
+				f()
+			}
+		}
+	}
+	switch vChoice("ops", 7) {
+	case 0:
+		vParallel(rep(func() { c.Write(a) }), rep(func() { c.Write(b) }))
+	case 1:
+		vParallel(rep(func() { c.Write(a) }), rep(func() { c.Read(rb1) }))
+	case 2:
+		vParallel(rep(func() { c.Write(a) }), rep(func() { c.Close() }))
+	case 3:
+		vParallel(rep(func() { c.Read(rb1) }), rep(func() { c.Close() }))
+	case 4:
+		vParallel(rep(func() { c.Read(rb1) }), rep(func() { c.Read(rb2) }))
+	case 5:
+		vParallel(rep(func() { c.Write(a) }), rep(func() { _ = c.ConnectionState() }))
+	default:
+		vParallel(rep(func() { c.CloseWrite() }), rep(func() { c.Write(a) }))
+	}
+	vReach("end")
+}
